@@ -80,10 +80,34 @@ package environment
 // The three hook entry points select weights by sign: negative, non-negative, all.
 //@ closure (*Environment).handleHooksWithNegativeWeights #1
 //@   property C08
+//@   pure
 //@   ensures result <==> w < 0
 //@ closure (*Environment).handleHooksWithPositiveWeights #1
 //@   property C08
+//@   pure
 //@   ensures result <==> w >= 0
+//@ closure (*Environment).handleAllHooks #1
+//@   property C08
+//@   pure
+//@   ensures result
+
+// handleHooks: for each selected weight, in ascending order: start calls, then await calls, then run task hooks; only
+// failures of critical hooks are collected as transition errors.
+//@ ghost pure func sortedW(w []callable.HookWeight) bool = forall a int, b int :: 0 <= a && a <= b && b < len(w) ==> w[a] <= w[b]
+//@ func (env *Environment) handleHooks(workflow workflow.Role, trigger string, weightPredicate func(callable.HookWeight) bool) (err error)
+//@   property C08 C09
+//@   opt pure-params=weightPredicate
+//@   ghostvar awaitedAt int = -1
+//@   ghostvar tasksAt int = -1
+//@   ghostvar lastCrit bool = false
+//@   on call (callable.Calls).StartAll : assert awaitedAt <= #i && tasksAt <= #i
+//@   on call (callable.Calls).AwaitAll : assert tasksAt <= #i ; awaitedAt = #i + 1
+//@   on call (*Environment).runTasksAsHooks : assert tasksAt <= #i ; tasksAt = #i + 1
+//@   on aftercall .GetTraits : lastCrit = result.Critical
+//@   on call append when argtype0 == "[]error" : assert lastCrit
+//@   loop 3 invariant #i >= -1 && #i < len(allWeights) && sortedW(allWeights) && sortedW(filteredWeights) && fresh(filteredWeights)
+//@   loop 3 invariant len(filteredWeights) > 0 ==> #i >= 0 && filteredWeights[len(filteredWeights) - 1] <= allWeights[#i]
+//@   loop 4 invariant #i >= -1 && awaitedAt <= #i + 1 && tasksAt <= #i + 1 && sortedW(filteredWeights) && fresh(filteredWeights)
 
 // ---------------------------------------------------------------------------------------------------------
 // C01 / C02 / C09: TryTransition fires the FSM event only while holding transitionMutex (released by a deferred Unlock),
